@@ -36,7 +36,7 @@ def derive_seed(*parts: Any) -> int:
 
 def jsonable(obj: Any, depth: int = 0) -> Any:
     """Best-effort conversion for replay/evidence files."""
-    if depth > 12:
+    if depth > 60:
         return repr(obj)
     if isinstance(obj, (str, int, float, bool)) or obj is None:
         if isinstance(obj, float) and (obj != obj or obj in (float("inf"), float("-inf"))):
